@@ -50,7 +50,7 @@ template <class T, size_t N, size_t M> static void run_config(Rng& g) {
                         P::base.shoupinvpoly_times_invphis[cm], P::base.omegas[cm], P::base.shoupomegas[cm],
                         P::base.invomegas[cm], P::base.shoupinvomegas[cm]};
     for (int t = 0; t < 8; t++) {
-      if (big && cm > 0 && t != 0 && t != 4) continue;
+      if (big && !thorough() && (cm > 0 || (t != 0 && t != 4 && t != 6))) continue;
       size_t len = t < 4 ? N : N - 1;
       printf("tab %d %d %zu %zu =>", t, bits<T>(), cm, k);
       for (size_t i = 0; i < len; i++) printf(" %llu", (unsigned long long)tabs[t][i]);
@@ -60,8 +60,9 @@ template <class T, size_t N, size_t M> static void run_config(Rng& g) {
   // ---- single-polynomial operations ----
   std::vector<std::pair<int, size_t>> kinds = {{0, 0}, {2, 0}, {6, 0}, {1, 1}, {1, N - 1}, {5, N / 2}, {3, 0}, {4, 0}, {7, 0}};
   if (N <= 16) for (size_t i = 0; i < N; i++) kinds.push_back({1, i});
-  size_t nrand = big ? 1 : (thorough() ? 6 : 2);
+  size_t nrand = big ? 0 : (thorough() ? 6 : 2);
   for (size_t i = 0; i < nrand; i++) kinds.push_back({4, 0});
+  if (big && !thorough()) kinds = {{2, 0}, {4, 0}};
   alignas(32) static P a, b, c, d;
   for (auto kd : kinds) {
     Gen<P>::fill(a, kd.first, g, kd.second);
@@ -74,13 +75,13 @@ template <class T, size_t N, size_t M> static void run_config(Rng& g) {
     for (size_t cm = 0; cm < M; cm++) emit_slice<T>("nttinv", cm, k, {&a(cm, 0)}, N, &c(cm, 0), N);
     c.ntt_pow_phi();
     for (size_t cm = 0; cm < M; cm++) emit_slice<T>("roundtrip2", cm, k, {&a(cm, 0)}, N, &c(cm, 0), N);
-    if (big && kd.first != 2 && kd.first != 4) continue;
   }
   // ---- pairs: products and linearity ----
   std::vector<std::array<size_t, 4>> pairs = {  // kindA posA kindB posB
       {1, N - 1, 1, 1}, {1, N / 2, 1, N / 2}, {6, 0, 4, 0}, {2, 0, 2, 0}, {4, 0, 4, 0}, {7, 0, 7, 0}, {5, N - 1, 1, N - 1}, {3, 0, 4, 0}, {0, 0, 4, 0}};
   if (N <= 8) for (size_t i = 0; i < N; i++) for (size_t j = 0; j < N; j++) pairs.push_back({1, i, 1, j});
-  if (big) pairs.resize(5);
+  if (big) pairs.resize(thorough() ? 5 : 0);
+  if (big && !thorough()) pairs = {{4, 0, 4, 0}};
   for (auto pr : pairs) {
     Gen<P>::fill(a, (int)pr[0], g, pr[1]);
     Gen<P>::fill(b, (int)pr[2], g, pr[3]);
@@ -111,6 +112,8 @@ template <class T, size_t N, size_t M> static void run_config(Rng& g) {
 #endif
 
 template <class T, size_t N, size_t M, size_t MIN> static void maybe(Rng& g) {
+  // quick tier: every degree up to 2048, and the largest one; 4096..16384 in the thorough tier
+  if (!thorough() && N >= 4096 && N < 32768) return;
   if constexpr (N >= MIN) run_config<T, N, M>(g);
 }
 
@@ -128,12 +131,12 @@ int main() {
   maybe<uint32_t, 64, 2, MIN32>(g); maybe<uint32_t, 128, 1, MIN32>(g); maybe<uint32_t, 256, 2, MIN32>(g);
   maybe<uint32_t, 512, 1, MIN32>(g); maybe<uint32_t, 1024, 2, MIN32>(g); maybe<uint32_t, 2048, 1, MIN32>(g);
   maybe<uint32_t, 4096, 1, MIN32>(g); maybe<uint32_t, 8192, 1, MIN32>(g); maybe<uint32_t, 16384, 1, MIN32>(g);
-  maybe<uint32_t, 32768, 2, MIN32>(g);
+  maybe<uint32_t, 32768, 1, MIN32>(g);
   maybe<uint64_t, 1, 3, 1>(g);  maybe<uint64_t, 2, 2, 1>(g);  maybe<uint64_t, 4, 3, 1>(g);
   maybe<uint64_t, 8, 1, 1>(g);  maybe<uint64_t, 16, 2, 1>(g); maybe<uint64_t, 32, 3, 1>(g);
   maybe<uint64_t, 64, 1, 1>(g); maybe<uint64_t, 128, 2, 1>(g); maybe<uint64_t, 256, 1, 1>(g);
   maybe<uint64_t, 512, 2, 1>(g); maybe<uint64_t, 1024, 1, 1>(g); maybe<uint64_t, 2048, 2, 1>(g);
   maybe<uint64_t, 4096, 1, 1>(g); maybe<uint64_t, 8192, 1, 1>(g); maybe<uint64_t, 16384, 1, 1>(g);
-  maybe<uint64_t, 32768, 2, 1>(g);
+  maybe<uint64_t, 32768, 1, 1>(g);
   return 0;
 }
